@@ -2,6 +2,7 @@ package props
 
 import (
 	"fmt"
+	"strings"
 	"math"
 
 	"pgregory.net/rapid"
@@ -27,11 +28,25 @@ var strPool = []string{"", "a", "abc", "1", "10", "9", " 12 ", "1e3", "+1", "-0"
 	".5", "5.", ".", "-", "--1", "1 2", " 12", "12 ", "\t4\n", "\r\n 7", "inf", "1E3", "é", "€uro", "𝄞clef", "é", "a'b", "a\"b", "a'\"b",
 	"x y", "  x  y  ", " em", "true", "false", "0", "00", "-.5", "1.", "007", "1.5", "ab", "ba", "aXb", "日本語"}
 
+// longString repeats a pool string up to 33-300 characters (size thresholds:
+// small-buffer paths, lookup tables, chunked copies).
+func longString(t *rapid.T, label string) string {
+	unit := []string{"ab", "a b ", "é", "𝄞x", "12", " ", "abc-", "x\ty\n"}[rapid.IntRange(0, 7).Draw(t, label+"Unit")]
+	n := []int{33, 64, 65, 100, 129, 257, 300}[rapid.IntRange(0, 6).Draw(t, label+"Len")]
+	var sb strings.Builder
+	for i := 0; i < n; i += len([]rune(unit)) {
+		sb.WriteString(unit)
+	}
+	return sb.String()
+}
+
 func genString(t *rapid.T, label string) string {
-	switch rapid.IntRange(0, 4).Draw(t, label+"Kind") {
-	case 0:
+	switch rapid.IntRange(0, 9).Draw(t, label+"Kind") {
+	case 9:
+		return longString(t, label)
+	case 0, 5:
 		return rapid.StringOfN(rapid.SampledFrom([]rune("ab1 .-\t\n\r é€𝄞́ ")), 0, 8, -1).Draw(t, label)
-	case 1:
+	case 1, 6:
 		return rapid.String().Draw(t, label)
 	}
 	return strPool[rapid.IntRange(0, len(strPool)-1).Draw(t, label+"Idx")]
